@@ -72,7 +72,11 @@ def match_known(prop, beh, msg, known):
     for f in known.get("findings", []):
         if f.get("property") != prop:
             continue
-        sig = f.get("signature", {})
+        # findings whose signature is a TLA+ predicate (KnownFindings.tla) are matched by TLC
+        # (KNOWN lines); only an operation-pattern signature (a dict) is matched here
+        sig = f.get("ops_signature")
+        if not isinstance(sig, dict):
+            continue
         if sig.get("what") and sig["what"] != msg["what"]:
             continue
         ops = beh["ops"][:msg["step"]]
